@@ -41,6 +41,12 @@ func (p *PointProj) scalarMulGLV(p1 *PointProj, scalar *big.Int) *PointProj {
 
 	res.setInfinity()
 
+	// phi maps the identity to (0,0,0): [s]O = O
+	if p1.IsZero() {
+		p.Set(&res)
+		return p
+	}
+
 	// table[b3b2b1b0-1] = b3b2*phi(p1) + b1b0*p1
 	table[0].Set(p1)
 	table[3].phi(p1)
@@ -140,6 +146,12 @@ func (p *PointExtended) scalarMulGLV(p1 *PointExtended, scalar *big.Int) *PointE
 	var k1, k2 fr.Element
 
 	res.setInfinity()
+
+	// phi maps the identity to (0,0,0): [s]O = O
+	if p1.IsZero() {
+		p.Set(&res)
+		return p
+	}
 
 	// table[b3b2b1b0-1] = b3b2*phi(p1) + b1b0*p1
 	table[0].Set(p1)
